@@ -39,6 +39,9 @@ pub fn owner_scripts() -> Vec<(&'static str, Vec<Op>)> {
         ("use-then-consume", vec![Op::Send(o, 901), Op::Call(o, 902), Op::Consume(o)]),
         ("detach-call", vec![Op::Detach(o), Op::Call(H::Addr(0), 903)]),
         ("to_addr-drop-call", vec![Op::ToAddr(o), Op::Drop(o), Op::Call(H::Addr(0), 904)]),
+        // a call the owner gives up after submitting it is in the mailbox all the same: it is part
+        // of the final state
+        ("abandon-call-then-consume", vec![Op::Send(o, 901), Op::CallAbandon(o, 908), Op::Consume(o)]),
         ("late-consume", vec![Op::Sleep(2), Op::Consume(o)]),
         ("late-join", vec![Op::Sleep(2), Op::Join(o)]),
         ("late-join-join", vec![Op::Sleep(2), Op::Join(o), Op::Join(o)]),
@@ -84,6 +87,18 @@ fn oracle(s: &ProgScene<X>, t: &Trace) -> Vec<Violation> {
     // request is accepted and, by C04, never handled)
     let foreign_stop = s.clients.iter().skip(1).any(|c| c.ops.iter().any(|op| matches!(op, Op::Stop(_) | Op::Halt(_))));
     if graceful && !foreign_stop && t.res.end == crate::vexec::EndReason::Quiescent {
+        for o in an.ops.iter().filter(|o| o.c == 0 && o.res == Some(Res::Abandoned)) {
+            if let Some(Op::CallAbandon(_, id)) = op_at(o.c, o.i) {
+                crate::check::oblige("final-state-includes-accepted");
+                if an.exit_of_msg(0, *id).is_none() {
+                    out.push(Violation {
+                        clause: "final-state-includes-accepted",
+                        key: format!("C17/abandoned-call-not-in-final-state/script={script}"),
+                        detail: format!("the owner submitted call {id} and gave up waiting for its answer; the actor ended gracefully without ever handling it: the joined value is not the final state"),
+                    });
+                }
+            }
+        }
         for o in an.ops.iter().filter(|o| o.c == 0 && o.ok()) {
             if let Some(Op::Send(_, id)) = op_at(o.c, o.i) {
                 crate::check::oblige("final-state-includes-accepted");
@@ -317,7 +332,7 @@ thread_local! {
 
 /// does the script terminate the actor by itself (consume / dropping the last handle)?
 fn self_terminating(name: &str) -> bool {
-    matches!(name, "consume" | "consume_sync" | "use-then-consume" | "detach-call" | "to_addr-drop-call" | "late-consume" | "late-consume_sync" | "send-joinstart-drop-owner-await" | "joinstart-send-drop-owner-await")
+    matches!(name, "consume" | "consume_sync" | "use-then-consume" | "abandon-call-then-consume" | "detach-call" | "to_addr-drop-call" | "late-consume" | "late-consume_sync" | "send-joinstart-drop-owner-await" | "joinstart-send-drop-owner-await")
 }
 
 fn plain_cases(tier: Tier) -> Vec<Case> {
@@ -410,7 +425,7 @@ fn cases(tier: Tier) -> Vec<Case> {
     }
     // ... and (every fourth case; thorough: every second) once more under a configuration that must
     // not matter: a handler timeout nothing comes near, and the recreate strategy
-    let nv = crate::progscene::Variant { generous_timeout: true, recreate: true, builder_order: 0 };
+    let nv = crate::progscene::Variant { generous_timeout: true, recreate: true, builder_order: 0, owner_dropped: false };
     let n = crate::progscene::with_variant(nv, || plain_cases(tier));
     let step = if tier == Tier::Thorough { 2 } else { 4 };
     v.extend(n.into_iter().enumerate().filter(|(i, _)| i % step == 1).map(|(_, mut c)| {
